@@ -275,7 +275,7 @@ Section Nodes.
 Variable tc : bool.
 Variable ok : bytes -> bool.                              (* the call expressions to_frag accepts *)
 Hypothesis Hok : forall x, ok x = true ->
-  match comp_of x with COnce _ | CFlush | CUnknown => False | _ => True end.
+  match comp_of x with COnce _ | CFlush | CUnknown | CJoin _ | CFlushWith _ | CEager _ => False | _ => True end.
 Variable tblA : list (bytes * list node).                 (* the templates of the file: AST ... *)
 Variable tbl : list (bytes * list nd).                    (* ... and fragment form *)
 
@@ -503,7 +503,7 @@ Lemma comp_ok cf e ex blkA blkD : ok (e_val ex) = true -> BRel blkA blkD ->
 Proof.
   intros Hk Hb. specialize (Hok _ Hk).
   destruct cf as [|cf]; [exists None; split; [reflexivity|apply agree_my00; reflexivity]|].
-  rewrite call_d_S. unfold fr_comp. destruct (comp_of (e_val ex)) as [name|o c| |s|k| | |] eqn:Ec; try contradiction.
+  rewrite call_d_S. unfold fr_comp. destruct (comp_of (e_val ex)) as [name|o c| |s|k| | | |jargs|farg|earg] eqn:Ec; try contradiction.
   - (* a template of the file *)
     exists None. split; [reflexivity|]. specialize (Htbl name). intros x Hf Hs0. cbn [render_comp_with].
     destruct (find_templ tblA name) as [body|].
@@ -526,7 +526,7 @@ Proof.
 Qed.
 Lemma comp_inert e c : inert (render_comp_with tblA R e c).
 Proof.
-  intros x p H. destruct c as [name|o c| |s|k| | |]; cbn [render_comp_with].
+  intros x p H. destruct c as [name|o c| |s|k| | | |jargs|farg|earg]; cbn [render_comp_with].
   - destruct (find_templ tblA name) as [body|].
     + apply (inert_seq (set_slot None) (nodes_with R (restrict e) (slot x) (Denote.strip_ws body) None));
         [apply inert_set_slot|apply nodes_inert|exact H].
@@ -546,6 +546,23 @@ Proof.
     apply (inert_seq (set_slot None) (render_block_with R (slot x))); [apply inert_set_slot|apply blk_inert].
   - apply inert_id, H.
   - apply inert_fail0, H.
+  - (* templ.Join *)
+    assert (E : forall l y, failed y = Some p ->
+              fold_left (fun z a => R e None (NCallT {| e_val := a; e_fi := 0%N; e_fl := 0%N; e_fc := 0%N; e_ti := 0%N; e_tl := 0%N; e_tc := 0%N |}) None z) l y = y).
+    { induction l as [|a l IHl]; intros y Hy; [reflexivity|]. cbn [fold_left]. rewrite (node_failed f e None _ None y p Hy). apply IHl, Hy. }
+    rewrite (E jargs x H). split; [exact H|reflexivity].
+  - (* flushWith *)
+    unfold render_children_restoring.
+    set (blk := Some (Blk [NCallT {| e_val := farg; e_fi := 0%N; e_fl := 0%N; e_fc := 0%N; e_ti := 0%N; e_tl := 0%N; e_tc := 0%N |}] e None)).
+    apply (inert_seq (fun y => set_slot (slot (set_slot blk x)) (render_block_with R (slot (set_slot blk x)) (set_slot None (set_slot blk y)))) (set_slot None)); [|apply inert_set_slot|exact H].
+    apply (inert_seq (fun y => render_block_with R (slot (set_slot blk x)) (set_slot None (set_slot blk y))) (set_slot (slot (set_slot blk x)))); [|apply inert_set_slot].
+    apply (inert_seq (fun y => set_slot None (set_slot blk y)) (render_block_with R (slot (set_slot blk x)))); [|apply blk_inert].
+    apply (inert_seq (set_slot blk) (set_slot None)); apply inert_set_slot.
+  - (* eager *)
+    assert (E1 : emit (bs "<e>") (set_slot None x) = set_slot None x) by (unfold emit; cbn [failed set_slot]; rewrite H; reflexivity).
+    rewrite E1. rewrite (node_failed f e None _ None (set_slot None x) p H).
+    assert (E2 : emit (bs "</e>") (set_slot None x) = set_slot None x) by (unfold emit; cbn [failed set_slot]; rewrite H; reflexivity).
+    rewrite E2. split; [exact H|reflexivity].
 Qed.
 
 (* the cases of if / else-if, of switch, and the iterations of for *)
@@ -765,7 +782,7 @@ End Nodes.
 
 (* ================= whole files ================= *)
 Lemma known_ok names x : fr_known names x = true ->
-  match comp_of x with COnce _ | CFlush | CUnknown => False | _ => True end.
+  match comp_of x with COnce _ | CFlush | CUnknown | CJoin _ | CFlushWith _ | CEager _ => False | _ => True end.
 Proof. unfold fr_known. destruct (comp_of x); try exact (fun _ => I); discriminate. Qed.
 Lemma bytes_eqb_sym a b : bytes_eqb a b = bytes_eqb b a.
 Proof.
